@@ -504,6 +504,16 @@ def coerce(path, v, shape):
         path.write_field(obj, 'len', path.read_field(v.d, 'size'))
         path.pc.append(path.read_field(v.d, 'size').e >= 0)
         return obj
+    if isinstance(shape, RefS) and shape.cls in CONTAINERS and CONTAINERS[shape.cls][0] in ('dict', 'set') \
+            and path is not None and ((isinstance(v, PyList) and not v.items) or type(v).__name__ == 'VEmptySet'):
+        # `{}` / `set()` stored where a dict / set is declared: a new, empty container
+        from .builtins_impl import alloc_container
+
+        class _Ex:           # alloc_container only needs .path
+            pass
+        e = _Ex()
+        e.path = path
+        return alloc_container(e, shape)
     if isinstance(v, SOpt) and not isinstance(shape, OptS):
         # caller must have established not-None
         return coerce(path, v.val, shape)
